@@ -62,6 +62,15 @@ def make_cfg(seed, i, typ):
         cfg = campaign.gen_cfg(rng, maxfuns=(20, 30, 45), nmax=3, proj_p=0.04, reg_p=0.04, restarts_p=0.6, averaging_p=0.25)
         if cfg.get("proj") or cfg.get("reg"):
             cfg["args"]["maxfun"] = min(cfg["args"]["maxfun"], 18)
+        if i % 3 == 1 and not cfg.get("proj") and not cfg.get("reg"):
+            # every point sampled 2-5 times, and the 'sufficiently small' threshold a little below the objective values the run
+            # sees: with the budget expiring in the middle of a point's samples (budget-index enumeration) an average taken over
+            # samples that were never run would pass the test
+            cfg["nsamples"] = dict(kind="const", v=int(rng.integers(2, 6)))
+            f0 = float(np.sum(gen.make_residual(cfg["prob"], cfg.get("lower"), cfg.get("upper"))(np.array(cfg["x0"], dtype=float)) ** 2))
+            if np.isfinite(f0) and f0 > 0:
+                cfg["user_params"]["model.abs_tol"] = f0 * float(rng.uniform(0.3, 0.8))
+                cfg["user_params"]["model.rel_tol"] = 0.0
     elif typ == "rand":
         cfg = campaign.gen_cfg(rng, restarts_p=0.6, maxfuns=(5, 12, 25, 40, 60, 100, 200, 400), term_p=0.45, proj_p=0.05, reg_p=0.05)
         if cfg.get("proj") or cfg.get("reg"):
